@@ -82,7 +82,8 @@ def gen_desc(rng, KEY, ABS):
 
     d = {"mode": rng.choice(MODES), "id": [rng.randrange(0, 65536) if rng.random() < 0.7 else 0 for _ in range(4)],
          "uniq": rng.choice(["", "", "ab:cd", "x y"]),
-         "defaults": {"octave": rng.choice([0, 0, 1, -2, 10, -10, 127, -128, 300]), "semitone": rng.choice([0, 0, 3, -3, 11, -200]),
+         "defaults": {"octave": rng.choice([0, 0, 1, -2, 10, -10, 127, -128, 300, 9223372036854775807, -9223372036854775808]),
+                      "semitone": rng.choice([0, 0, 3, -3, 11, -200, 4294967296, 9223372036854775807, -9223372036854775808]),
                       "channel": rng.choice([1, 1, 2, 8, 16]), "velocity": rng.choice([0, 64, 1, 127, rng.randint(0, 127)])},
          "colors": [rng.choice([0, 0xffffff, 0x7f0000, rng.randrange(1 << 24)]) for _ in range(7)],
          "mappings": []}
